@@ -165,33 +165,43 @@ func checkC08(p *Prog, r *Report) {
 	serve := anchorFunc(p, r, pkgRsyncd, "Server", "Serve")
 	hd := anchorFunc(p, r, pkgRsyncd, "Server", "HandleDaemonConn")
 	if serve != nil && hd != nil {
-		// HandleDaemonConn is called only from a `go` literal of Serve
+		// HandleDaemonConn is called only from a function that Serve starts with
+		// `go` — a literal, or a method/function of the package (go s.serveConn(…))
+		// — and that has no results
 		inGo := false
-		for _, lit := range serve.AnonFuncs {
+		var bodies []*ssa.Function
+		for _, b := range serve.Blocks {
+			for _, in := range b.Instrs {
+				gi, ok := in.(*ssa.Go)
+				if !ok {
+					continue
+				}
+				if mc, ok := gi.Common().Value.(*ssa.MakeClosure); ok {
+					if lit, ok := mc.Fn.(*ssa.Function); ok {
+						bodies = append(bodies, lit)
+					}
+				} else if sc := gi.Common().StaticCallee(); sc != nil && sc.Blocks != nil {
+					bodies = append(bodies, sc)
+				}
+			}
+		}
+		for _, body := range bodies {
 			calls := false
-			allCalls(lit, func(c ssa.CallInstruction) {
+			allCalls(body, func(c ssa.CallInstruction) {
 				if c.Common().StaticCallee() == hd {
 					calls = true
 				}
 			})
-			if !calls {
-				continue
-			}
-			// the literal must be started with `go`
-			for _, b := range serve.Blocks {
-				for _, in := range b.Instrs {
-					if gi, ok := in.(*ssa.Go); ok {
-						if mc, ok := gi.Common().Value.(*ssa.MakeClosure); ok && mc.Fn == ssa.Value(lit) {
-							inGo = true
-						}
-					}
-				}
-			}
-			// and has no result (an error cannot travel back into the loop)
-			if lit.Signature.Results().Len() != 0 {
-				inGo = false
+			if calls {
+				inGo = body.Signature.Results().Len() == 0
 			}
 		}
+		// … and from nowhere else in Serve itself
+		allCalls(serve, func(c ssa.CallInstruction) {
+			if c.Common().StaticCallee() == hd {
+				inGo = false
+			}
+		})
 		r.Cond(inGo, "C08/SESSION-ISOLATION", "Serve handles each connection in a `go` literal without results", p.Pos(serve.Pos()), "connection errors must not be able to reach the accept loop")
 		// every Return of Serve is dominated by Accept's error being non-nil
 		var acc *ssa.Call
@@ -223,6 +233,7 @@ func checkC08(p *Prog, r *Report) {
 	checkTaintedBounds(p, r, append(append(server, client...), sshd...))
 	checkEnvStreams(p, r)
 	checkListNoNil(p, r)
+	checkSumsIndex(p, r)
 	checkConstIndex(p, r, append(append(server, client...), sshd...))
 
 	r.Assume("foreign code calls only function values and interface methods it was handed; no reflection/unsafe/cgo in module code")
